@@ -2,6 +2,7 @@ import RbV.Ref.NW
 import RbV.Ref.PoaCheck
 import RbV.Ref.PoaAccept
 import RbV.Lemmas.NWIdentity
+import RbV.Lemmas.PoaChain
 /-!
 # C16 — partial-order alignment: exact on linear graphs, graph stays a growing DAG
 
@@ -102,6 +103,13 @@ theorem identity_is_unique_optimum (sc : Sc) (M : Int) (hle : ∀ a b, sc.w a b 
   · have := identity_unique sc M hle hg x o _ ho hne
     omega
 
+/-- refinement of the mirror model: the recurrence of `Poa::custom` in global mode (prefix-wise rows, first
+column `(node+1)·gap`, first node without the delete-after-insertions candidate, Rust tie-breaking), run over
+the chain graph built from `x`, ends in a cell whose score is the optimum — for all scoring functions,
+references and queries.  The driver evaluates `chainScore` next to the observed score (`drift-chain-score`). -/
+theorem chain_dp_is_optimum (sc : Sc) (x y : List Nat) : Poa.Model.chainScore sc x y = nwBest sc x y :=
+  Poa.Model.chainScore_eq_nwBest sc x y
+
 /-! ## Non-vacuity: the hypotheses are met by concrete non-trivial inputs -/
 
 def exSc : Sc := { w := fun a b => if a = b then 1 else -1, gap := -1 }
@@ -111,6 +119,7 @@ example : nwFast exSc [71, 65, 84, 84, 65, 67, 65] [71, 67, 65, 84, 71, 67, 85] 
 example : score exSc [65, 67, 71] [65, 71] [.mat, .del, .mat] = some 1 := by decide
 example : acceptGlobal exSc [65, 67, 71] [65, 71] [.m none, .d (some (0, 2)), .m (some (1, 2))] 1 = true := by decide
 example : acceptGlobal exSc [65, 67, 71] [65, 71] [.m none, .m (some (0, 1)), .d (some (1, 3))] 1 = false := by decide
+example : Poa.Model.chainScore exSc [71, 65, 84, 84, 65, 67, 65] [71, 67, 65, 84, 71, 67, 85] = 0 := by decide
 -- a DAG with a bubble is accepted, a 3-cycle is not
 example : isAcyclic 4 [(0, 1), (1, 2), (0, 3), (3, 2)] = true := by decide
 example : isAcyclic 3 [(0, 1), (1, 2), (2, 0)] = false := by decide
